@@ -14,6 +14,8 @@
 (*                                                                         *)
 (* Each call is stepped with Lifecycle!Call; the judgement of a step:      *)
 (*   caller array modified                     -> fail                     *)
+(*   an attribute that is Def after the step holds another value than the  *)
+(*        one the definition determines (vals)  -> fail                    *)
 (*   correct result (ok, = reference, = its repetition) -> ok  (always)    *)
 (*   spec outcome "fails"(m,a): the exception listed for (class,m,a) by a  *)
 (*        deviation that is switched on        -> kf, anything else fail   *)
@@ -73,12 +75,21 @@ ClassFailDevs(k, s) == {f.dev : f \in {g \in FailTable : g.dev \in Deviations /\
                                                        /\ g.et = s.etype /\ g.em = s.emsg}}
 
 (* judgement of step s of the current event; o = outcome of Lifecycle!Call on the abstract state *)
-Judge(k, mode, s, prev, o) ==
+(* attributes the state says are Def after the step but that do not hold the value the definition *)
+(* determines (s.vals: <<role, name, holds-the-canonical-value>>, the value being the one the       *)
+(* attribute has the first time a first call on a fresh object derives it)                          *)
+BadValues(s, dAfter) == {Pair(s.vals[i]) : i \in {q \in 1..Len(s.vals) :
+                            /\ Pair(s.vals[q]) \in DOMAIN dAfter
+                            /\ dAfter[Pair(s.vals[q])] = "Def"
+                            /\ ~s.vals[q][3]}}
+Judge(k, mode, s, prev, o, dAfter) ==
     LET drift == ~(AttrSet(s.rbw) \subseteq MayRead(k, s.m) /\ AttrSet(s.writes) \subseteq MayWrite(k, s.m))
         driftWhat == <<AttrSet(s.rbw) \ MayRead(k, s.m), AttrSet(s.writes) \ MayWrite(k, s.m)>>
         mk(v, devs, why) == [m |-> s.m, v |-> v, devs |-> devs, why |-> why, spec |-> <<o.out, o.attr>>,
                              drift |-> IF drift THEN driftWhat ELSE <<>>]
     IN IF ~s.argsSame THEN mk("fail", {}, "caller array modified")
+       ELSE IF mode = "abstract" /\ ~drift /\ BadValues(s, dAfter) # {}
+       THEN mk("fail", {}, <<"derived attribute holds a value that depends on the call history", BadValues(s, dAfter)>>)
        ELSE IF Good(s, prev) THEN mk("ok", {}, "")
        ELSE IF mode = "concrete"
        THEN IF s.out = "exc"
@@ -118,7 +129,7 @@ Step == /\ l <= Len(Trace) /\ j >= 1 /\ j <= Len(Ev.steps)
                o == Exec(kind, s.m, derived, ckey)
                repaired == s.out = "ok" /\ o.out = "fails" /\ Pseudo(kind, o.attr)
            IN /\ IF repaired THEN CallRepaired(s.m) ELSE Call(s.m)
-              /\ acc' = Append(acc, Judge(kind, Ev.mode, s, prev, AsState(last')))
+              /\ acc' = Append(acc, Judge(kind, Ev.mode, s, prev, AsState(last'), derived'))
         /\ j' = j + 1 /\ UNCHANGED <<l, n>>
 End == /\ l <= Len(Trace) /\ j = Len(Ev.steps) + 1
        /\ Verdict(Ev.id, Overall(acc, Ev.mode), acc)
